@@ -37,6 +37,12 @@ impl Parser {
             full_moon_parse_timer.duration_label()
         );
         parse_result.map_err(ParserError::parsing).and_then(|ast| {
+            // the parsing library can stop reading a malformed text (one that ends where a type
+            // or an `if` expression is expected for example) without reporting any error: a
+            // complete tree always prints back the text it was read from
+            if ast.to_string() != code {
+                return Err(ParserError::incomplete());
+            }
             log::trace!("start converting full-moon AST");
             let conversion_timer = Timer::now();
             let block = self.convert_ast(ast).map_err(ParserError::converting);
@@ -68,6 +74,7 @@ impl Parser {
 enum ParserErrorKind {
     Parsing(Vec<full_moon::Error>),
     Converting(ConvertError),
+    Incomplete,
     Internal(String),
 }
 
@@ -90,6 +97,12 @@ impl ParserError {
         }
     }
 
+    fn incomplete() -> Self {
+        Self {
+            kind: ParserErrorKind::Incomplete.into(),
+        }
+    }
+
     fn internal(message: String) -> Self {
         Self {
             kind: ParserErrorKind::Internal(message).into(),
@@ -107,6 +120,9 @@ impl fmt::Display for ParserError {
                 Ok(())
             }
             ParserErrorKind::Converting(err) => write!(f, "{}", err),
+            ParserErrorKind::Incomplete => {
+                write!(f, "unexpected end of code: the text could not be read entirely")
+            }
             ParserErrorKind::Internal(message) => {
                 write!(f, "the parser failed unexpectedly: {}", message)
             }
